@@ -1271,8 +1271,9 @@ class FnAnalysis:
 class Program:
     """Whole-crate context: memoised per-function analyses, callee models, type hints."""
 
-    def __init__(self, facts):
+    def __init__(self, facts, dissolve=()):
         self.facts = facts
+        self.dissolve = frozenset(dissolve)   # named functions this (rule-private) program nevertheless describes by cases
         self._an = {}
         self.noovf = set()   # Add terms that are cursors of successful checked reads (cannot have wrapped)
         self._hints = {}
@@ -1297,6 +1298,8 @@ class Program:
     def known_name(self, lf):
         """is this in-crate function part of the vocabulary the rules speak in (then it is kept as a named call)?"""
         from .vocab import is_known
+        if lf["qual"] in self.dissolve:
+            return False
         # the crate's public interface keeps its names too: only private helpers are dissolved into their case analysis
         return is_known(lf["qual"]) or bool(lf.get("reachable_pub")) and lf.get("kind") != "Closure"
 
@@ -1748,6 +1751,13 @@ class Program:
                 r = ((good, T.ite(c, SOME(pg), NONE)), (bad, NONE))
         elif m == "flatten" and opt and len(args) == 1:
             r = ((good, pg), (bad, NONE))
+        elif m == "transpose" and len(args) == 1:
+            if opt:     # Option<Result<T, E>> -> Result<Option<T>, E>
+                r = ((good, T.mterm(pg, (("Ok", OK(SOME(T.payload(pg, "Ok")))), ("Err", ERR(T.payload(pg, "Err")))))), (bad, OK(NONE)))
+                an.hint(pg, "result::Result")
+            else:       # Result<Option<T>, E> -> Option<Result<T, E>>
+                r = ((good, T.mterm(pg, (("Some", SOME(OK(T.payload(pg, "Some")))), ("None", NONE)))), (bad, SOME(ERR(pb))))
+                an.hint(pg, "option::Option")
         elif m == "zip" and opt and len(args) == 2 and args[1].op not in ("ref", "refval"):
             Y = args[1]
             r = ((good, T.mterm(Y, (("Some", SOME(T.agg("tuple", None, 0, None, [pg, T.payload(Y, "Some")]))), ("None", NONE)))), (bad, NONE))
